@@ -676,7 +676,17 @@ func isFailureReturn(ret *ssa.Return) bool {
 	if !isErrorType(ev.Type()) {
 		return false
 	}
-	return certainlyNonNilErr(ev, ret.Block(), 0)
+	if certainlyNonNilErr(ev, ret.Block(), 0) {
+		return true
+	}
+	// a function that reports two kinds of failure separately (marshalErr, putErr error): a
+	// certain error in any error result is a failure
+	for _, r := range ret.Results[:n-1] {
+		if isErrorType(r.Type()) && certainlyNonNilErr(r, ret.Block(), 0) {
+			return true
+		}
+	}
+	return false
 }
 
 func certainlyNonNilErr(ev ssa.Value, at *ssa.BasicBlock, depth int) bool {
